@@ -1,12 +1,18 @@
 #!/bin/bash
-# usage: tools/seed_matrix.sh [id ...]  -- every seeded change against the checks its meta.json lists; writes seeded/MATRIX.txt
+# usage: tools/seed_matrix.sh [-j N] [id ...]  -- every seeded change against the checks its meta.json lists, N seeds at
+# a time (default 3); writes seeded/MATRIX.txt (one block per seed: exit codes, VIOLATION lines, failed obligations)
 cd /verif
+par=3
+if [ "$1" = "-j" ]; then par=$2; shift 2; fi
 ids=${@:-$(ls seeded | grep '^C')}
-out=/verif/seeded/MATRIX.txt
-: > $out.tmp
-for id in $ids; do
-  checks=$(jq -r '.checks_that_report_it | join(" ")' seeded/$id/meta.json)
-  echo "=== seed $id (checks: $checks)" >> $out.tmp
-  tools/try_seed.sh /verif/seeded/$id/patch.diff $checks >> $out.tmp 2>&1
-done
-mv $out.tmp $out
+tmp=$(mktemp -d /tmp/seed_matrix.XXXXXX)
+one() {
+  id=$1; tmp=$2
+  checks=$(jq -r '.checks_that_report_it | join(" ")' /verif/seeded/$id/meta.json)
+  { echo "=== seed $id (checks: $checks)"; /verif/tools/try_seed.sh /verif/seeded/$id/patch.diff $checks 2>&1; } > $tmp/$id.txt
+}
+export -f one
+echo $ids | tr ' ' '\n' | xargs -P $par -I{} bash -c "one {} $tmp"
+cat $(ls $tmp/*.txt | sort) > /verif/seeded/MATRIX.txt
+rm -rf $tmp
+grep -E "^=== |exit=" /verif/seeded/MATRIX.txt | awk '/^===/ {s=$3} /exit=/ {print s, $1, $2}'
